@@ -60,7 +60,7 @@ class LinalgStub:
         n = A.shape[0]
         calls = C.extra.setdefault('solve_calls', [])
         # the solver is a function: identical (A, b) give the identical unknowns
-        ckey = (tuple(SC.lift(v).p.key() for v in A.flat), tuple(SC.lift(v).p.key() for v in b.flat))
+        ckey = (A.shape, tuple(SC.lift(v).p.key() for v in A.flat), tuple(SC.lift(v).p.key() for v in b.flat))
         memo = C.extra.setdefault('solve_memo', {})
         if ckey in memo: return memo[ckey].copy()
         k = len(calls)
@@ -80,7 +80,7 @@ class LinalgStub:
             return real_np.linalg.inv(real_np.array(M, dtype=complex))
         n = M.shape[0]
         calls = C.extra.setdefault('inv_calls', [])
-        ckey = tuple(SC.lift(v).p.key() for v in M.flat)
+        ckey = (M.shape, tuple(SC.lift(v).p.key() for v in M.flat))
         memo = C.extra.setdefault('inv_memo', {})
         if ckey in memo: return memo[ckey].copy()
         k = len(calls)
